@@ -398,6 +398,50 @@ theorem loop_paused_frame (s s' : CS) (w : CWl) (hgone : s.gone = false) (hfin :
     refine ⟨trivial, trivial, hnet, ?_⟩
     cases h1 : s.ro.sub <;> cases h2 : r.w.ro.sub <;> simp only [hro, h1, h2] at hsub <;> simp_all
 
+/-! ### 3b. supervision (C01 / C08): no pod runs a revision the rollout has not taken up
+
+Full-strength statement (FALSE for the unchanged code — known finding `supersedeRace`):
+
+    ∀ history over ALL labels (a release at any time) from `Init`, every state satisfies `supervisedOK`.
+
+The BatchRelease executor answers a changed pod template (`WorkloadPodTemplateChanged`) by recording the new update
+revision and stopping for ONE round; on the next rounds it carries on with the old plan for the NEW revision and lowers
+the partition the admission webhook had just set to 100 % — before the Rollout controller has reset the release.
+Witness below; candidate repair `fixes/closedloop-supersede-race.patch` (do not advance the observed revision: keep
+stopping until the Rollout controller deletes / re-creates the BatchRelease). -/
+
+/-- **C01 / C08 (closed loop)** — along every forward history (no release during a rollout), while the rollout is rolling
+    the workload's update revision is the one the rollout is releasing, so `supervised` holds.
+    (partial: label set — with a release during a rollout the statement is false, see `loop_supervised_full_FALSE`;
+    and only the rolling states are covered: outside them the sub-status of the previous rollout is not tracked) -/
+theorem loop_supervised_partial (s0 s : CS) (ls : List Label) (h0 : Init s0) (hr : Reach s0 ls s)
+    (hph : s.ro.phase = .progressing) (hre : s.ro.reason = .inRolling) : supervisedOK s = true ∧ gSupersedeRace s = false := by
+  have h := loop_inv_partial s0 s ls h0 hr
+  obtain ⟨hgone, _, w, hw, _, _, _, hpi⟩ := fwd_parts s h
+  cases hsub : s.ro.sub with
+  | none => rw [phaseInv, hph, hre] at hpi; simp only [hsub] at hpi; cases hpi
+  | some sub =>
+    rw [phaseInv_rolling s w sub hph hre hsub] at hpi
+    simp only [Bool.and_eq_true] at hpi
+    have sg := (subOK_iff s.ro sub w).1 hpi.1.1
+    constructor
+    · unfold supervisedOK
+      rw [hgone, hw]
+      simp only [Bool.false_or]
+      unfold RV.Oracle.Cluster.supervised
+      have hwl : (roWorld s).wl = some (roWl w) := by simp only [roWorld, hw, Option.map_some]
+      have hro : (roWorld s).ro = s.ro := rfl
+      rw [hwl, hro, hsub]
+      dsimp only
+      rw [if_neg]
+      intro hc
+      exact hc.1 (by simp only [roWl]; exact sg.rev.symm)
+    · unfold gSupersedeRace
+      rw [hsub, hw]
+      simp only [Bool.and_eq_false_imp]
+      intro _
+      simp [sg.rev]
+
 /-! ### 5. `loop_crash` (C06) -/
 
 /-- **C06** — `crash` (the controller restarts: the in-memory grace expectations are lost) is a label of every history
@@ -557,6 +601,22 @@ theorem reachD_of_legalRunD (s s' : CS) (ls : List Label) (h : legalRunD s ls = 
 example : (legalRunD exS0 (.release "v2" :: (List.replicate 9 exRound).flatten ++ [.delete] ++ (List.replicate 16 exRound).flatten)).map
       (fun s => (s.gone, s.br.isNone, s.wl.map (fun w => (w.partition, w.owner)))) =
     some (true, true, some (none, .none)) := by decide +kernel
+
+/-- the history of the `supersedeRace` witness -/
+def supersedeHist : List Label :=
+  .release "v2" :: (List.replicate 12 exRound).flatten ++ [.release "v3", .br, .env, .br, .env, .br, .env, .br, .env]
+
+/-- **known finding `supersedeRace` — witness.**  Rollout of `v2` on step 1 (20 %, batch ready, 2 of 10 pods updated); the
+    user pushes `v3` (held back by the webhook at partition 100 %); the BatchRelease controller reconciles four times and
+    the CloneSet controller reacts before the Rollout controller reconciles once: the partition is back at 80 % and 2 pods
+    run `v3`, a revision the Rollout (still on `v2`, step 1) has not taken up.  The same history is replayed on the real
+    controllers on every run (corpus `closedloop/finding-supersedeRace`). -/
+theorem loop_supervised_full_FALSE :
+    (run exS0 supersedeHist).map (fun s =>
+        gSupersedeRace s && !supervisedOK s &&
+        (match s.wl with | some w => w.updateRevision == "v3" && w.updated == 2 && w.partition == some (.pct 80) | none => false) &&
+        (match s.ro.sub with | some sub => sub.canaryRev == "v2" && sub.curIdx == 1 | none => false)) = some true := by
+  decide +kernel
 
 /-- test: the ghost of the first history: on step 1 in `StepUpgrade`, nothing observed yet -/
 example : RV.Oracle.ClosedLoop.traceOK (Ghost.fresh 0) exS0
